@@ -89,7 +89,7 @@ bool PathMatch::match(const std::string &pattern, const std::string &path, const
                 ++s;
             }
             while (*t != '\0' && (slash || *t != '/')) {
-                if (*s == *t) {
+                if (*s == *t || *s == '?' || *s == '*') {
                     /* Could stop here, but do greedy match and add
                      * backtrack instead */
                     b.emplace(s.getpos(), t.getpos());
